@@ -14,6 +14,7 @@ mod lu;
 mod xpy;
 mod families;
 mod xradau;
+mod xbdf;
 
 fn main() {
     let args: Vec<String> = std::env::args().collect();
@@ -32,6 +33,7 @@ fn main() {
         "xlu" => lu::run(rest),
         "xpy" => xpy::run(rest),
         "xradau" => xradau::run(rest),
+        "xbdf" => xbdf::run(rest),
         "sym-check" => families::sym(rest),
         "mass-check" => families::mass(rest),
         "accuracy-check" => families::accuracy(rest),
